@@ -473,6 +473,16 @@ fn build_cli_cases(tier: Tier) -> Vec<CliCase> {
             }
         }
     }
+    // RDH versions at the edges of the accepted range 3..=100 (every header carries that version)
+    for ver in [3u8, 4, 6, 7, 99, 100] {
+        let mut pk = gen::recognisable_pattern_stream(&[0, 1, 2, 0, 1], 5500 + ver as u64);
+        for p in pk.iter_mut() {
+            p.rdh.header_id = ver;
+        }
+        for stdin in [false, true] {
+            v.push(CliCase { packets: pk.clone(), filter: if stdin { Some(Filter::Link(1)) } else { None }, stdin, label: format!("cli rdh version {ver}") });
+        }
+    }
     // batch multiples on the CLI (CAP = 100): 99 / 100 / 101 / 200 / 201 packets; long streams: 10^3 (quick), 10^4 and 10^5 packets (thorough)
     let counts: &[usize] = if tier.is_thorough() { &[99, 100, 101, 200, 201, 1000, 10_000, 100_000] } else { &[100, 101, 1000] };
     for &n in counts {
